@@ -53,16 +53,24 @@ func (fc *FuncCtx) constWriteObligations(ids []string) {
 			fc.assume(True, Not(Eq(cs[i], cs[j])))
 		}
 	}
-	seen := map[int]bool{}
 	for _, w := range fc.bigWrites {
-		if seen[w.z.id] && false {
-			continue
-		}
 		var conj []*Term
 		for _, c := range cs {
 			conj = append(conj, Not(Eq(w.z, c)))
 		}
 		fc.oblige(fc.site(fc.fn+"#safe.constwrite"), "safe", ids, w.pc, And(conj...), nil, "a big.Int written in place is not one of the shared package constants ("+w.where+")")
+		fc.assume(w.pc, And(conj...))
+	}
+	// the constants hold their values in the entry heap and in every heap version introduced by
+	// a havoc (opaque callees are assumed not to write package constants; verified code is
+	// checked by the obligations above), so reading them through the heap gives the literal
+	h0 := fc.heapInit("big", bigSort)
+	for _, c := range cs {
+		v := IntLit(fc.eng.constBig[c])
+		fc.assume(True, Eq(Select(h0, c), v))
+		for _, hv := range fc.bigHavocs {
+			fc.assume(True, Eq(Select(hv, c), v))
+		}
 	}
 }
 
